@@ -17,8 +17,8 @@ package zitiql
 //@   nosafety
 //@   requires el != nil
 //@   modifies *
-//@   lensures[lexer-listens] lsn[lexer.BaseLexer.BaseRecognizer][el]
-//@   lensures[parser-listens] lsn[p.BaseParser.BaseRecognizer][el]
+//@   lensures[lexer-listens] lsn[old(lexer.BaseLexer.BaseRecognizer)][el]
+//@   lensures[parser-listens] lsn[old(p.BaseParser.BaseRecognizer)][el]
 
 //@ func newErrorListener
 //@   props C10
